@@ -46,6 +46,10 @@ static int iterConv(MPT_INTERFACE(convertable) *conv, MPT_TYPE(type) type, void 
 		}
 		return 's';
 	}
+	/* no text at all: no value for any target type */
+	if (!it->val) {
+		return 0;
+	}
 	if (type == MPT_type_toVector('c')) {
 		struct iovec *vec;
 		if ((vec = dest)) {
